@@ -14,6 +14,16 @@ OBLIGATIONS = [
      "statement": "loadSnap(encodeSnap ents) = ok(snapState ents) for every list of valid entries within the count bound"},
     {"id": "C11_D2", "theorem": "Iora.C11.D2_torn_tail", "kind": "proved",
      "statement": "complete records followed by any strict prefix of one more record replay to the complete records only, goodEnd = end of the last complete record; no CRC assumption"},
+    {"id": "C11_D3_D4", "theorem": "Iora.C11.D3_D4_crash_recover", "kind": "proved",
+     "statement": "from every reachable state, every operation, every crash point (any prefix of its file operations, the write in progress cut at any byte), restart at any t >= now: load succeeds, every key shows its entry before or after the operation (compaction windows included), and the recovered store satisfies the full invariant again (continuation, any number of generations)"},
+    {"id": "C11_D3_rel", "theorem": "Iora.C11.D3_every_image", "kind": "proved",
+     "statement": "the same for every directory satisfying the relational crash-image definition of DESIGN 6.5 (not only the enumerated ones)"},
+    {"id": "C11_D4", "theorem": "Iora.C11.D4_continuation", "kind": "proved",
+     "statement": "after recovery from any crash image, any further history followed by a clean close + reopen equals the reference map started from the recovered contents"},
+    {"id": "C11_D4_any", "theorem": "Iora.C11.D4_recover_any", "kind": "proved",
+     "statement": "the constructor succeeds and re-establishes the invariant on every directory of the crash-image shape (complete snapshot or none, complete records, a torn record, any temp file)"},
+    {"id": "C11_enum", "theorem": "Iora.C11.crashImage_sound", "kind": "proved",
+     "statement": "the executable crash-image enumeration of the driver produces only crash images"},
     {"id": "C11_J1", "theorem": "Iora.C11.J1_flush_atomic", "kind": "proved",
      "statement": "JSON file store: at every crash point of a flush (any op prefix, any byte cut) the store file is untouched or the complete new text (depends on Gen: saveToFile goes through temp + rename)"},
     {"id": "C11_J1_last", "theorem": "Iora.C11.J1_last_flush", "kind": "proved",
@@ -199,7 +209,7 @@ def run(ctx: Ctx):
     if ok_build:
         ctx.audit(MODULES, OBLIGATIONS)
         if not quick:
-            ctx.leanchecker(MODULES + ["IoraModel.Lemmas.KvFiles", "IoraModel.Lemmas.KvStore", "IoraModel.Lemmas.KvLog", "IoraModel.Lemmas.KvMap",
+            ctx.leanchecker(MODULES + ["IoraModel.Lemmas.KvCrash", "IoraModel.Lemmas.KvFiles", "IoraModel.Lemmas.KvStore", "IoraModel.Lemmas.KvLog", "IoraModel.Lemmas.KvMap",
                                        "IoraModel.Lemmas.JsonFileStore", "IoraModel.Model.JsonFileStore", "IoraModel.Model.KvSpec",
                                        "IoraModel.Model.KvStore", "IoraModel.Model.KvLog", "IoraModel.Model.KvMap"])
     else:
@@ -271,7 +281,7 @@ def run_kv(ctx, hb, env, rng, quick, stats, where_dist):
                           {"broken": {"correspondence": "kv lockstep on file-operation traces (harness/c11_kv.cpp vs Model/KvStore.lean)",
                                       "detail": "first differing op index %d" % i}, "ops": c["ops"], "observed": impl, "expected_by_model": model},
                           found_input=False)
-            continue
+            # the images below are built from the implementation's own events: the property monitor still looks for a failing input
         if c["cat"] != "history":
             continue
         # ---- images of this history
@@ -290,6 +300,39 @@ def run_kv(ctx, hb, env, rng, quick, stats, where_dist):
             w = img["where"].split(" ", 2)[2] if img["where"].startswith("op ") else img["where"]
             w = " ".join(x for x in w.split() if not x.isdigit() and "/" not in x)
             where_dist[w] = where_dist.get(w, 0) + 1
+    # ---- the model's own crash-image function on the model's own trace vs the images built here from the same events
+    mops = []
+    checks = []
+    for c, impl, model in res[:40]:
+        if c["cat"] != "history":
+            continue
+        fs = K.PyFs()
+        for i, (op, ml) in enumerate(zip(c["ops"], model)):
+            mops.append(op)
+            evs = K.events_of(K.trace_of(ml))
+            t0 = op.split()[0]
+            if evs and t0 in ("set", "setttl", "remove", "expireat", "persist", "compact", "evict"):
+                k = rng.below(len(evs) + 1)
+                n = K.ev_len(evs[k]) if k < len(evs) else 0
+                cut = rng.below(n + 1) if n else 0
+                f2 = fs.copy()
+                for ev in evs[:k]:
+                    f2.apply_event(ev)
+                if k < len(evs) and evs[k].startswith("A:"):
+                    f2.apply_event(evs[k], cut=cut)
+                mops.append("crashat %d %d" % (k, cut))
+                checks.append((len(mops) - 1, "img %s %s %s" % f2.hexes(), op))
+            for ev in evs:
+                fs.apply_event(ev)
+    if mops:
+        mout, mrc, merr = ctx.run_lines(ctx.model_argv("kv"), mops, timeout=600)
+        stats["model_crashimage_checks"] = len(checks)
+        for idx, want, op in checks:
+            if idx >= len(mout) or mout[idx] != want:
+                ctx.violation("correspondence", "the model's crashImage differs from the image built from the same file events for `%s`: model=`%s` here=`%s`"
+                              % (op[:80], K.short(mout[idx] if idx < len(mout) else "?", 160), K.short(want, 160)),
+                              {"broken": {"correspondence": "Model/KvLog.lean crashImage vs props/c11.py image construction", "detail": op}}, found_input=False)
+                break
     # continuation ops need the recovered state: generated after a first look at the image? No: the generator does not depend on
     # the recovered state, only the reference does; so the ops are generated now and the reference is seeded from the observed recovery.
     for ic in image_cases:
@@ -359,19 +402,23 @@ def run_boundary(ctx, hb, env):
 # ------------------------------------------------------------------ JSON file store
 def run_json(ctx, hj, env, rng, quick, stats):
     n_hist = 25 if quick else 400
-    for h in range(n_hist):
+    fixed = [c["ops"] for c in load_corpus() if c["cat"] == "json"]
+    for h in range(len(fixed) + n_hist):
         r = rng.fork("j%d" % h)
-        keys = ["k%d" % i for i in range(r.range(1, 5))] + ["key with space", "q\"uote", "unié"]
-        ops = ["jreset"]
-        for _ in range(r.range(2, 10)):
-            x = r.below(10)
-            if x < 5:
-                ops.append("jset %s %s" % (hexs(r.choice(keys).encode()), hexs(("v%d" % r.below(1000)).encode() * r.range(0, 3))))
-            elif x < 7:
-                ops.append("jremove %s" % hexs(r.choice(keys).encode()))
-            else:
-                ops += ["jdump", "jflush"]
-        ops += ["jdump", "jflush"]
+        if h < len(fixed):
+            ops = fixed[h]
+        else:
+            keys = ["k%d" % i for i in range(r.range(1, 5))] + ["key with space", "q\"uote", "unié"]
+            ops = ["jreset"]
+            for _ in range(r.range(2, 10)):
+                x = r.below(10)
+                if x < 5:
+                    ops.append("jset %s %s" % (hexs(r.choice(keys).encode()), hexs(("v%d" % r.below(1000)).encode() * r.range(0, 3))))
+                elif x < 7:
+                    ops.append("jremove %s" % hexs(r.choice(keys).encode()))
+                else:
+                    ops += ["jdump", "jflush"]
+            ops += ["jdump", "jflush"]
         out, rc, err = ctx.run_lines([hj], ops, timeout=300, env=env)
         ctx.count_case("\n".join(ops), nontrivial=True)
         if rc != 0 or len(out) != len(ops):
